@@ -354,5 +354,12 @@ Definition oracle (name suffix : string) (args : list val) (out : val) : N :=
         match args with [VB p; VB e] => oracle_c13 s p e out | _ => fail end
       else if tag_is name "c17" then
         match args with [VB p] => oracle_c17 s typed p out | _ => fail end
+      else if tag_is name "c19p" then
+        match args, out with
+        | [VB a; VB b], VC t [VBool eq; ord; VBool consistent] =>
+            let ca := ospec s a in let cb := ospec s b in
+            ob (tag_is t "c19p" && consistent && Bool.eqb eq (wlist_eqb ca cb) && val_eqb ord (e_ord (wlist_cmp ca cb)))
+        | _, _ => fail
+        end
       else pass
   end.
